@@ -206,3 +206,161 @@ func H_C07_History() {
 	d1.CreationInfo.Created, d2.CreationInfo.Created = "", ""
 	rt.Assert(rt.DeepEq(d1, d2), "C07.history.sameoutput")
 }
+
+// jSameUpToOrder: equal JSON trees where arrays are compared as multisets (set-valued arrays may come out in any order).
+func jSameUpToOrder(a, b *rt.J, depth int) bool {
+	if a == nil || b == nil {
+		return a == nil && b == nil
+	}
+	if a.Kind != b.Kind || depth > 8 {
+		return false
+	}
+	switch a.Kind {
+	case 1:
+		return a.B == b.B
+	case 2:
+		return a.N == b.N
+	case 3:
+		return a.S == b.S
+	case 4:
+		return permEq(len(a.Items), len(b.Items), func(i, j int) bool { return jSameUpToOrder(a.Items[i], b.Items[j], depth+1) })
+	case 5:
+		if len(a.Keys) != len(b.Keys) {
+			return false
+		}
+		ok := true
+		for i, k := range a.Keys {
+			bv := jGet(b, k)
+			if bv == nil {
+				return false
+			}
+			ok = rt.And(ok, jSameUpToOrder(a.Items[i], bv, depth+1))
+		}
+		return ok
+	}
+	return true
+}
+
+func c07render(s native.Serializer, doc *sbom.Document) (*rt.J, bool) {
+	res, err := s.Serialize(doc, &native.SerializeOptions{}, nil)
+	if err != nil || res == nil {
+		return nil, false
+	}
+	st := rt.NewStream()
+	if s.Render(res, st, &native.RenderOptions{Indent: 2}, nil) != nil {
+		return nil, false
+	}
+	return st.Tree(), true
+}
+
+// withoutTimestamps drops the members that carry the creation time.
+func withoutTimestamps(j *rt.J) *rt.J {
+	if j == nil || (j.Kind != 4 && j.Kind != 5) {
+		return j
+	}
+	out := &rt.J{Kind: j.Kind}
+	for i, it := range j.Items {
+		if j.Kind == 5 {
+			if j.Keys[i] == "created" || j.Keys[i] == "timestamp" {
+				continue
+			}
+			out.Keys = append(out.Keys, j.Keys[i])
+		}
+		out.Items = append(out.Items, withoutTimestamps(it))
+	}
+	return out
+}
+
+// H_C07_Determinism: the same document twice, every iteration order of its map-valued attributes explored
+// independently for the two runs: the outputs agree up to the order of arrays and the creation time.
+func H_C07_Determinism() {
+	i := rt.NondetChoice("fmt", 3)
+	if i == 1 {
+		return
+	}
+	n := &sbom.Node{Id: "n", Name: "n", Version: "1",
+		Identifiers: map[int32]string{int32(sbom.SoftwareIdentifierType_CPE22): "cpe:/a:x:y", int32(sbom.SoftwareIdentifierType_CPE23): "cpe:2.3:a:x:y"}}
+	switch rt.NondetChoice("maps", 3) {
+	case 1:
+		n.Identifiers[int32(sbom.SoftwareIdentifierType_PURL)] = "pkg:x/y"
+	case 2:
+		n.Hashes = map[int32]string{int32(sbom.HashAlgorithm_SHA1): "aa", int32(sbom.HashAlgorithm_SHA256): "bb"}
+	}
+	m := &sbom.Node{Id: "m", Name: "m"}
+	nl := &sbom.NodeList{Nodes: []*sbom.Node{n, m}, RootElements: []string{"n"}, Edges: []*sbom.Edge{{From: "n", Type: sbom.Edge_contains, To: []string{"m"}}}}
+	if rt.NondetChoice("rootis", 2) == 1 {
+		nl.RootElements = []string{"m"}
+		nl.Edges[0] = &sbom.Edge{From: "m", Type: sbom.Edge_contains, To: []string{"n"}}
+	}
+	doc := &sbom.Document{Metadata: &sbom.Metadata{Id: "doc", Version: "1"}, NodeList: nl}
+	rt.MapOrderAll(true)
+	a, ok1 := c07render(c07ser(i), doc)
+	b, ok2 := c07render(c07ser(i), doc)
+	rt.MapOrderAll(false)
+	if !ok1 || !ok2 {
+		rt.Assert(ok1 == ok2, "C07.determinism.sameerror")
+		return
+	}
+	rt.Assert(jSameUpToOrder(withoutTimestamps(a), withoutTimestamps(b), 0), "C07.determinism.sameoutput")
+}
+
+// H_C07_Containment: every containment tree on a root and up to four more nodes (edges grouped per parent or one per
+// pair, in a decision-chosen order) plus one more contains edge between any two nodes at any position in the list
+// (self loop, cycle through any child, second parent): the CycloneDX tree building terminates.
+func H_C07_Containment() {
+	names := []string{"r", "x", "a", "b", "c"}
+	n := 3 + rt.NondetLen("n", rt.Bound("NC", 2, 2))
+	nl := &sbom.NodeList{RootElements: []string{"r"}}
+	for _, id := range names[:n] {
+		nl.Nodes = append(nl.Nodes, &sbom.Node{Id: id})
+	}
+	grouped := rt.NondetChoice("grouped", 2) == 1
+	for i := 1; i < n; i++ {
+		p, c := names[rt.NondetChoice("parent", i)], names[i]
+		if grouped {
+			if e := nl.GetEdgeByType(p, sbom.Edge_contains); e != nil {
+				e.To = append(e.To, c)
+				continue
+			}
+		}
+		nl.Edges = append(nl.Edges, &sbom.Edge{From: p, Type: sbom.Edge_contains, To: []string{c}})
+	}
+	if rt.NondetChoice("reversed", 2) == 1 {
+		for i, j := 0, len(nl.Edges)-1; i < j; i, j = i+1, j-1 {
+			nl.Edges[i], nl.Edges[j] = nl.Edges[j], nl.Edges[i]
+		}
+	}
+	extra := &sbom.Edge{From: names[1+rt.NondetChoice("from", n-1)], Type: sbom.Edge_contains, To: []string{names[rt.NondetChoice("to", n)]}}
+	at := rt.NondetChoice("at", len(nl.Edges)+1)
+	edges := append([]*sbom.Edge{}, nl.Edges[:at]...)
+	edges = append(edges, extra)
+	nl.Edges = append(edges, nl.Edges[at:]...)
+	c07total(serializers.NewCDX("1.5", "json"), &sbom.Document{Metadata: &sbom.Metadata{Id: "doc", Version: "1"}, NodeList: nl}, "C07.containment.cdx15")
+}
+
+// H_C07_HistoryCDX: a CycloneDX serialization is not influenced by an earlier one that succeeded or failed half way.
+func H_C07_HistoryCDX() {
+	mk := func(id string) *sbom.Node { return &sbom.Node{Id: id, Name: id} }
+	doc := &sbom.Document{Metadata: &sbom.Metadata{Id: "doc", Version: "1"},
+		NodeList: &sbom.NodeList{Nodes: []*sbom.Node{mk("a"), mk("b"), mk("c")}, RootElements: []string{"a"},
+			Edges: []*sbom.Edge{{Type: sbom.Edge_contains, From: "b", To: []string{"c"}}}}}
+	other := &sbom.Document{Metadata: &sbom.Metadata{Id: "other", Version: "2"},
+		NodeList: &sbom.NodeList{Nodes: []*sbom.Node{mk("z"), mk("c"), mk("y")}, RootElements: []string{"z"},
+			Edges: []*sbom.Edge{{Type: sbom.Edge_contains, From: "y", To: []string{"c"}}}}}
+	switch rt.NondetChoice("otherfails", 3) {
+	case 1:
+		other.NodeList.Edges = append(other.NodeList.Edges, &sbom.Edge{Type: sbom.Edge_dependsOn, From: "y", To: []string{"missing"}})
+	case 2:
+		t := sbom.DocumentType_SBOMType(77)
+		other.Metadata.DocumentTypes = []*sbom.DocumentType{{Type: &t}}
+	}
+	v := []string{"1.5", "1.4"}[rt.NondetChoice("version", 2)]
+	first, ok1 := c07render(serializers.NewCDX(v, "json"), doc)
+	c07render(serializers.NewCDX([]string{"1.5", "1.4"}[rt.NondetChoice("otherversion", 2)], "json"), other)
+	second, ok2 := c07render(serializers.NewCDX(v, "json"), doc)
+	if !ok1 || !ok2 {
+		rt.Assert(ok1 == ok2, "C07.historycdx.sameerror")
+		return
+	}
+	rt.Assert(jSameUpToOrder(withoutTimestamps(first), withoutTimestamps(second), 0), "C07.historycdx.sameoutput")
+}
